@@ -355,7 +355,108 @@ class Timed(Monitor):
                     r.report("C06", "cover-moved-too-early-after-heating", f"cover command {data} {(t - heat_off_sched) / 1e6:.1f} s after the heat pump was switched off (configured {d_open:.0f} s)")
 
 
-SETTLED_MONITORS = [C01, C02, C05i, C06a, C07a, C08, C12a, C13a, C15a, C17a, Liveness, Timed]
+class PhaseTimes(Monitor):
+    """C08 (and C06/C07/C17 for their phases): every time-limited phase is left no later than its configured duration after
+    it was entered (+ 2 s, + the lag the scenario injects).  The oracle durations come from config.ini and from the duration
+    settings as they are when the phase is entered; phases that a message may legitimately restart are measured from the
+    last restart."""
+
+    pid = "C08"
+
+    def attach(self, r):
+        import configparser
+        import os
+
+        from .system import REPO
+
+        c = configparser.ConfigParser()
+        c.read(os.path.join(REPO, "config.ini"))
+        f = lambda sec, k: float(c[sec][k])  # noqa: E731
+
+        def attr(name):
+            return lambda a: getattr(a, f"_Filtration__{name}").total_seconds()
+
+        self.table = {
+            ("Filtration", "standby_boost"): ("C08", attr("boost_duration")),
+            ("Filtration", "overflow_boost"): ("C08", attr("boost_duration")),
+            ("Filtration", "wash_backwash"): ("C07", attr("backwash_backwash_duration")),
+            ("Filtration", "wash_rinse"): ("C07", attr("backwash_rinse_duration")),
+            ("Filtration", "heating_delay_none"): ("C08", lambda a: f("heating", "delay_to_eco")),
+            ("Filtration", "heating_delay_standby"): ("C08", lambda a: f("heating", "delay_to_open")),
+            ("Filtration", "heating_delay_overflow"): ("C08", lambda a: f("heating", "delay_to_open")),
+            ("Filtration", "wintering_stir"): ("C17", lambda a: f("wintering", "duration")),
+            ("Filtration", "eco_compute"): ("C08", lambda a: 5.0),
+            ("Heating", "recovering"): ("C08", lambda a: f("heating", "recover_period")),
+            ("Disinfection", "waiting"): ("C08", lambda a: f("disinfection", "start_delay")),
+            ("Disinfection", "running_treating"): ("C08", lambda a: f("disinfection", "waiting_delay")),
+            ("Swim", "wintering_stir"): ("C17", lambda a: f("wintering", "swim_duration")),
+        }
+        self.restart = {("Filtration", "heating_delay_none"): "heating_delay"}
+        self.min_phase = {("Heating", "recovering"): "C06"}
+        self.open = {}
+        self._idx = {}
+        self.r = r
+        r.world.on_state.append(self.on_state)
+
+    def last_due(self, owner, t0, now, end_idx=None):
+        """due instant of the timer `owner` armed last in [t0, now] (an actor has a single timer slot), or None"""
+        due = None
+        for (t, kind, data) in self.r.world.log[self._idx.get(owner, 0):end_idx]:
+            if t > now:
+                break
+            if kind == "timer_start" and data[0] == owner:
+                due = t + float(data[2]) * 1e6
+        return due
+
+    def judge(self, k, t0, bound, now, how, end_idx=None):
+        r = self.r
+        dur = (now - t0) / 1e6
+        if dur <= bound + 0.5:
+            return
+        due = self.last_due(k[0], t0, now, end_idx)
+        # the phase's timeout must be DUE no later than its duration after the entry; how long its delivery then takes is the
+        # scheduling lag (a busy, lagging or blocked controller), which the property allows for
+        if due is None or (due - t0) / 1e6 > bound + 0.5:
+            late = "no timer was armed" if due is None else f"its timer is due after {(due - t0) / 1e6:.1f} s"
+            for p in {self.table[k][0], "C08"}:
+                r.report(p, f"phase-too-long:{k[0]}.{k[1]}", f"{k[0]} stayed {dur:.1f} s in the time-limited phase {k[1]} (configured {bound:.0f} s): {late}; {how}")
+
+    def on_state(self, actor, old, new, hname, now, log_before):
+        r = self.r
+        ko = (actor.sim_name, old)
+        if ko in self.open:
+            t0, bound, idx = self.open.pop(ko)
+            self._idx[ko[0]] = idx
+            rs = self.restart.get(ko)
+            if rs is not None:
+                # measured from the last delivery of the restart message inside the phase
+                for (t, kind, data) in reversed(r.world.log):
+                    if t < t0:
+                        break
+                    if kind == "deliver" and data == (ko[0], rs):
+                        t0 = t
+                        break
+            self.judge(ko, t0, bound, now, f"left by {hname}", log_before)
+            dur = (now - t0) / 1e6
+            if ko in self.min_phase and new != "halt" and dur < bound - 1.0:
+                r.report(self.min_phase[ko], f"phase-too-short:{ko[0]}.{old}", f"{ko[0]} left {old} after {dur:.1f} s (configured {bound:.0f} s) by {hname}")
+        kn = (actor.sim_name, new)
+        if kn in self.table:
+            try:
+                self.open[kn] = (now, float(self.table[kn][1](actor)), log_before)
+            except Exception:  # noqa: BLE001
+                pass
+
+    def finish(self, r):
+        now = r.world.now_us
+        for k, (t0, bound, idx) in list(self.open.items()):
+            if not _alive(r, k[0]) or r.world.deadlock is not None or k in self.restart:
+                continue
+            self._idx[k[0]] = idx
+            self.judge(k, t0, bound, now, "still in it at the end of the run")
+
+
+SETTLED_MONITORS = [C01, C02, C05i, C06a, C07a, C08, C12a, C13a, C15a, C17a, Liveness, Timed, PhaseTimes]
 
 
 def all_monitors():
